@@ -166,9 +166,32 @@ func runC18(t *sim.T, tier string) *sim.Violation {
 		t.Probe("unparseable-shared-input")
 	}
 	nST := t.Choose(3)
+	staticHeavy := false
 	var stIn [][]byte
 	for i := 0; i < nST; i++ {
 		m := gen.GenStatic(t, gen.DrawStaticCfg(t, false))
+		if t.Chance(1, 3) {
+			// archives that fail part-way (empty or torn member, missing column, ...): error paths of one
+			// caller run next to successful parses of the others
+			if t.Chance(1, 2) {
+				// a member that cannot even be opened as CSV (no header row): the open path fails and cleans up
+				tb := m.Feed.Tables[t.Choose(len(m.Feed.Tables))]
+				if t.Chance(1, 2) {
+					tb = m.Feed.Table("agency.txt")
+				}
+				tb.Raw = []byte{}
+				t.Logf("shared archive %d fault: %s is an empty member", i, tb.Name)
+				t.Probe("faulted-shared-archive")
+				staticHeavy = true
+			} else {
+				for n := t.Range(1, 2); n > 0; n-- {
+					if d := gen.MutateStatic(t, m, gen.FocusAll); d != "" {
+						t.Logf("shared archive %d fault: %s", i, d)
+						t.Probe("faulted-shared-archive")
+					}
+				}
+			}
+		}
 		stIn = append(stIn, m.Feed.Zip(gen.DrawZipOpts(t, len(m.Feed.Tables))))
 	}
 	snapRT := make([][]byte, len(rtIn))
@@ -224,7 +247,7 @@ func runC18(t *sim.T, tier string) *sim.Violation {
 		n := t.Range(1, 4)
 		for k := 0; k < n; k++ {
 			op := c18Op{}
-			if nST > 0 && t.Chance(1, 4) {
+			if nST > 0 && (t.Chance(1, 4) || (staticHeavy && t.Chance(1, 2))) {
 				op.kind = 1
 				op.input = t.Choose(nST)
 				op.inherit = t.Chance(1, 2)
